@@ -34,7 +34,8 @@ def rule_R2(chk, repo):
         if not (init and cp and gg and get):
             raise AnalysisError(f'{cname}: __init__/copy_nids/generate_graph/get not all present')
         from ..canon import canonical, CLASS_L_ROLES
-        cp = canonical(cp, CLASS_L_ROLES)
+        from ..normal import wrap, dictcomp_to_loops
+        cp = wrap(canonical(cp, CLASS_L_ROLES), dictcomp_to_loops)
         gg = canonical(gg, CLASS_L_ROLES)
         created, cleaves = tb.family_nests(init.node, tb.self_attr_root('self'))
         created.pop('L', None)
@@ -341,7 +342,9 @@ def rule_R5(chk, repo, rid='C07.R5'):
                   'keys [..][i]) and the blocks that fill the right matrix (families connected to the left terminal, keys '
                   '[..][i + 2]) are mirror images of each other block by block (same families, same key patterns, same matrix '
                   'elements); pure creation families are transformed with u, pure annihilation families with conj(u)')
+    from ..normal import wrap, inline_procedures
     fi = repo.func('hamiltonian.molecular_hamiltonian_orbital_gauge_transform')
+    fi = wrap(fi, inline_procedures({n_: f_.node for n_, f_ in repo.modules[fi.module].functions.items()}))
     halves = {}
     cur = None
     for s in fi.node.body:
